@@ -87,6 +87,12 @@ def check(ctx):
     check_ranking(ctx)
     check_counter_capacity(ctx)
     check_correlation_backfill(ctx)
+    # neighbours and correlations of one bootstrap iteration are paired
+    # by position: the two lists are filled in lock-step
+    from ..rules.nodekeys import check_zip_alignment
+    for fi_ in ctx.db.iter_functions():
+        if fi_.module.short == 'type_assignment.election':
+            check_zip_alignment(ctx, fi_)
 
 
 def _draw_ok(fi, expr, nid, depth=0):
